@@ -108,6 +108,7 @@ def run(ctx):
         pipeline.compare_trace(ctx, mix)
         if mix["out"] is not None:
             statement(ctx, mix)
+        pipeline.each_config(ctx, lambda name, c: statement(ctx, c), with_kept_maps=False)
         tr = pipeline.traced_run(MARKER_INPUTS, n_jobs=8)
         pipeline.compare_trace(ctx, tr)
         pp_layer.corr_postprocess(ctx, pp_layer.cases_from_trace(mix) + pp_layer.cases_from_trace(tr))
